@@ -372,7 +372,12 @@ BCloneFrom ==
   /\ \E h \in Live("B"), o \in Live("B") :
        /\ h # o
        /\ LET r == CloneB(Mach, o)
-              M == Ins(DropB(Del(r[1], h), hd[h]), h, r[2])
+              \* self-test mutant: "two handles that start at the same byte are views of one buffer" --
+              \* only the length is copied, no reference is taken (an empty handle made by split_to(0)
+              \* holds the address but no reference)
+              samep == Mutation = "clone_from_same_ptr" /\ hd[h].a = hd[o].a /\ hd[h].off = hd[o].off
+              M == IF samep THEN Set(Mach, h, [hd[h] EXCEPT !.len = hd[o].len])
+                   ELSE Ins(DropB(Del(r[1], h), hd[h]), h, r[2])
           IN Commit(M, Event(M, "b_clone_from", h, 0, 0, 0, o, 0, <<>>, "ok", <<>>, -9), Prog("b_clone_from", h, Z, Z, 0, o, 0))
 
 BSlice ==
